@@ -75,6 +75,8 @@ func errClass(err error) string {
 		return "err-dead"
 	case strings.Contains(s, "enough data"):
 		return "err-short"
+	case strings.Contains(s, "immediately after a request was issued"):
+		return "err-first-read-eof"
 	case strings.Contains(s, "unexpected EOF"):
 		return "err-ueof"
 	case strings.Contains(s, "EOF"):
@@ -103,9 +105,24 @@ func us(d time.Duration) int64 { return int64(d / time.Microsecond) }
 func bubbleStacks() string {
 	buf := make([]byte, 1<<20)
 	buf = buf[:runtime.Stack(buf, true)]
+	// goroutines leaked by earlier cases stay around: keep the newest bubble only
+	bubbleOf := func(g string) int {
+		i := strings.Index(g, "synctest bubble ")
+		if i < 0 {
+			return -1
+		}
+		n := -1
+		fmt.Sscanf(g[i+len("synctest bubble "):], "%d", &n)
+		return n
+	}
+	gs := strings.Split(string(buf), "\n\n")
+	newest := -1
+	for _, g := range gs {
+		newest = max(newest, bubbleOf(g))
+	}
 	var out []string
-	for _, g := range strings.Split(string(buf), "\n\n") {
-		if strings.Contains(g, "synctest bubble") {
+	for _, g := range gs {
+		if b := bubbleOf(g); b >= 0 && b == newest {
 			lines := strings.Split(g, "\n")
 			if len(lines) > 9 {
 				lines = lines[:9]
@@ -161,7 +178,7 @@ func run(t *testing.T, c *Case) (o Obs) {
 			return
 		}
 		start := time.Now()
-		o.Reqs = make([]ReqResult, c.N)
+		results := make([]ReqResult, c.N) // o.Reqs is a snapshot taken at the deadline
 		o.BoundUs = us(bound(c.N))
 		var mu sync.Mutex
 		var wg sync.WaitGroup
@@ -205,7 +222,7 @@ func run(t *testing.T, c *Case) (o Obs) {
 					}
 				}
 				mu.Lock()
-				o.Reqs[i] = r
+				results[i] = r
 				mu.Unlock()
 			}()
 		}
@@ -242,7 +259,7 @@ func run(t *testing.T, c *Case) (o Obs) {
 		close(finished)
 		synctest.Wait()
 		mu.Lock()
-		o.Reqs = append([]ReqResult(nil), o.Reqs...)
+		o.Reqs = append([]ReqResult(nil), results...)
 		mu.Unlock()
 		for _, cn := range br.Conns() {
 			co := ConnObs{ID: cn.ID, Handshakes: cn.Handshakes, SentHex: hex.EncodeToString(cn.Sent), Closed: cn.Closed, StepsDone: cn.StepsDone}
@@ -819,9 +836,21 @@ func TestVerifC22(t *testing.T) {
 		f := sum.ByKey[k]
 		r.Violation(k, fmt.Sprintf("case #%d %s: %s (n=%d, Metadata v%d, issue mode %s)\n%s\n(%d cases with this key)", f.Index, f.Case.Fam, f.Case.Desc, f.Case.N, f.Case.Ver, f.Case.Mode, f.What, f.Count), f)
 	}
-	for _, cr := range crashes {
-		r.Violation("panic", fmt.Sprintf("case #%d %s: %s (n=%d, Metadata v%d, issue mode %s)\nthe worker process died while this case was running:\n%s", cr.idx, cr.c.Fam, cr.c.Desc, cr.c.N, cr.c.Ver, cr.c.Mode, cr.tail),
-			map[string]any{"case": cr.c, "stderr": cr.tail})
+	if len(crashes) > 0 {
+		sort.Slice(crashes, func(i, j int) bool {
+			if a, b := caseSize(crashes[i].c), caseSize(crashes[j].c); a != b {
+				return a < b
+			}
+			return crashes[i].idx < crashes[j].idx
+		})
+		cr := crashes[0]
+		var all []int64
+		for _, x := range crashes {
+			all = append(all, x.idx)
+		}
+		r.Violation("panic", fmt.Sprintf("case #%d %s: %s (n=%d, Metadata v%d, issue mode %s)\nthe worker process died while this case was running:\n%s\n(%d cases killed their worker: %v)",
+			cr.idx, cr.c.Fam, cr.c.Desc, cr.c.N, cr.c.Ver, cr.c.Mode, cr.tail, len(crashes), all),
+			map[string]any{"case": cr.c, "stderr": cr.tail, "all_crashing_case_indices": all})
 	}
 	os.Exit(r.Write())
 }
